@@ -49,6 +49,34 @@ def programs(seed, max4):
                     out.append({"m": 3, "nodes": nodes})
     return out
 
+def merge_programs():
+    """Fork/merge shapes for the parallel family: a fork node reads two ring nodes concurrently, the two
+    paths (of different lengths) merge in one node before the edge that closes the cycle; every
+    numbering of the ring nodes (the engine's search order depends on the ids)."""
+    out = []
+    shapes = {
+        4: {"F": ("A", "L"), "L": ("A",), "A": ("C",), "C": ("F",)},                       # F->{A,L}, L->A, A->C, C->F
+        5: {"F": ("A", "L"), "L": ("I",), "I": ("A",), "A": ("C",), "C": ("F",)},           # + one inner node
+    }
+    for k, shape in shapes.items():
+        names = list(shape)
+        perms = list(itertools.permutations(range(2, k + 2)))
+        if k == 5:
+            random.Random(5).shuffle(perms)
+            perms = perms[:40]
+        for perm in perms:
+          for fork_mode in (3, 1):     # 3: each read in its own spawned task, 1: join_all in the executor's task
+            idx = dict(zip(names, perm))
+            nodes = [node("In")] + [None] * k
+            for nm, succ in shape.items():
+                code = [item([1]), item([idx[x] for x in succ], c=1, mode=fork_mode if len(succ) == 2 else 0)]
+                nodes[idx[nm] - 1] = node("Nm", code, init=0)
+            nodes.append(node("Nm", [item([1]), item([idx["F"]], c=1)]))      # consumer of the fork node
+            nodes.append(node("Nm", [item([idx["L"]], c=0)]))                  # consumer of the long path
+            out.append({"m": 3, "nodes": nodes})
+    return out
+
+
 if __name__ == "__main__":
     args = [a for a in sys.argv if not a.startswith("--")]
     outp = args[1]
@@ -60,6 +88,8 @@ if __name__ == "__main__":
     random.Random(seed).shuffle(ps)
     cap = int(args[4]) if len(args) > 4 else len(ps)
     ps = ps[:cap]
+    if PAR:
+        ps = merge_programs() + ps
     with open(outp, "w") as f:
         for p in ps:
             f.write(json.dumps({"prog": p}) + "\n")
